@@ -310,8 +310,12 @@ def oracle(case, res, known_attrs):
     csv_rows = r0["csv"]
     if csv_rows[0] != r0["header"][0] or csv_rows[1:] != r0["body"]:
         bad.append(("csv", "CSV rows are not header + body"))
-    if r0["jcolumns"] != [h.lower() for h in r0["header"][0]]:
-        bad.append(("json", "JSON column names are not the lower-cased header"))
+    low = [h.lower() for h in r0["header"][0]]
+    jc = r0["jcolumns"]
+    # one key per column, pairwise different; the lower-cased title itself, or (for a repeated title) the title qualified
+    if (len(jc) != len(low) or len(set(jc)) != len(jc) or any(not (k == l or k.startswith(l + "_")) for k, l in zip(jc, low))
+            or (titles_distinct(r0["header"][0]) and jc != low)):
+        bad.append(("json", f"JSON column names {jc} are not one distinct key per column derived from the lower-cased header {low}"))
     for i, rec in enumerate(r0["jdata"]):
         if [v for _k, v in rec] != csv_rows[i + 1]:
             bad.append(("json-csv", f"row {i}: JSON record carries {len(rec)} cells {[v for _k, v in rec]}, "
